@@ -1,13 +1,13 @@
 #!/bin/bash
 # Applies every own mutant (mutants/<ID>/*.diff) to a scratch copy of /repo and runs the property's
 # quick check against it; prints CAUGHT / MISSED / NOAPPLY per mutant. usage: mutants.sh [ID...]
-cd /verif
+cd "$(dirname "$0")/.."; V=$PWD
 ids=${@:-$(ls mutants)}
 for id in $ids; do
   for m in mutants/$id/*.diff; do
     [ -f "$m" ] || continue
     w=/tmp/mutw.$$; rm -rf $w; cp -a /repo $w
-    if ! (cd $w && git apply "/verif/$m" 2>/dev/null || patch -p1 -s -f < "/verif/$m" >/dev/null 2>&1); then echo "NOAPPLY $id $(basename $m)"; rm -rf $w; continue; fi
+    if ! (cd $w && git apply "$V/$m" 2>/dev/null || patch -p1 -s -f < "$V/$m" >/dev/null 2>&1); then echo "NOAPPLY $id $(basename $m)"; rm -rf $w; continue; fi
     out=$(VERIF_REPO=$w ./run.sh check $id quick 2>&1)
     if echo "$out" | grep -q "^VIOLATION"; then echo "CAUGHT  $id $(basename $m) $(echo "$out" | grep -m2 'key=' | tr -s ' ' | tr '\n' ' ' | cut -c1-160)"; else echo "MISSED  $id $(basename $m)"; fi
     rm -rf $w
